@@ -16,10 +16,10 @@ BOUND = "at most 1 (quick; then the tag name is one of a/input/style) / 2 (thoro
 def serializer(S):
     import os
     thorough = os.environ.get("VERIF_TIER_EFFECTIVE") == "thorough"
-    # quoting options: symbolic (constrained to their legal values) for tokens that have no attribute; ser_token makes
-    # them concrete case splits for the tokens whose attributes read them
-    return S.obj(SER, quote_attr_values=S.str_in("quote_attr_values", ("legacy", "spec", "always")),
-                 quote_char=S.str_in("quote_char", ('"', "'")), use_best_quote_char=S.bool("use_best_quote_char"),
+    # quoting options are concrete case splits made first: they also drive the split of the exploration into
+    # parallel tasks (split_depth)
+    return S.obj(SER, quote_attr_values=S.one_of("legacy", "spec", "always"),
+                 quote_char=S.one_of('"', "'"), use_best_quote_char=S.bool("use_best_quote_char"),
                  omit_optional_tags=False,
                  minimize_boolean_attributes=S.bool("minimize_boolean_attributes") if thorough else False,
                  use_trailing_solidus=S.bool("use_trailing_solidus"),
@@ -36,8 +36,8 @@ def ser_token(S, L=None):
     d = S.dict({"type": t})
     if t in ("StartTag", "EndTag", "EmptyTag", "Doctype"):
         d.entries["name"] = [S.str("token.name"), True]
-    if t in ("StartTag", "EndTag", "EmptyTag"):
-        d.entries["namespace"] = [S.one_of(None, lambda: S.str("token.namespace")), True]
+    if t == "EndTag":
+        d.entries["namespace"] = [S.str("token.namespace"), True]
     if t == "Doctype":
         d.entries["publicId"] = [S.one_of(None, lambda: S.str("publicId")), True]
         d.entries["systemId"] = [S.one_of(None, lambda: S.str("systemId")), True]
@@ -46,9 +46,12 @@ def ser_token(S, L=None):
         d.entries["data"] = [S.str("token.text"), True]
     elif t in ("StartTag", "EmptyTag"):
         k = S.choice(most + 1)
-        if k >= 1 and L is not None:
-            L.self.fields["quote_attr_values"] = S.one_of("legacy", "spec", "always")
-            L.self.fields["quote_char"] = S.one_of('"', "'")
+        if k >= 1:
+            # tags that carry attributes: the namespace is an arbitrary string (the None case -- tokens of walkers
+            # that do not namespace -- is explored for attribute-free tags, where the raw-text decision is the same code)
+            d.entries["namespace"] = [S.str("token.namespace"), True]
+        else:
+            d.entries["namespace"] = [S.one_of(None, lambda: S.str("token.namespace")), True]
         if k >= 1 and most == 1:
             # quick tier: tags that carry attributes have one of three representative names (ordinary, void,
             # raw text); attribute-free tags and the thorough tier keep the name arbitrary
@@ -157,7 +160,7 @@ def step_attribute_values(yielded, pre, self, token):
 class Serialize:
     props = ("C08", "C10", "C07")
     modular = False
-    split_depth = 9
+    split_depth = 15
 
     def inputs(S):
         return dict(self=serializer(S), treewalker=S.abstract("Walker"), encoding=None)
